@@ -69,7 +69,9 @@ package smtp
 //@ contract (*Conn).Close(c) (err)
 //@   prop C03 C07 C08 C20
 //@   requires c != nil && c.conn != nil && sessOK(c)
-//@   modifies c.bdatPipe, c.session, c.closed, c.cbLogout, c.bdatPipe.state, c.session.loggedOut
+//@   modifies c.bdatPipe, c.session, c.closed, c.cbLogout
+//@   modifies c.bdatPipe.state if c.bdatPipe != nil
+//@   modifies c.session.loggedOut if c.session != nil
 //@   ensures closed: c.closed && c.session == nil && c.bdatPipe == nil
 //@   ensures @C08 logout-on-close: old(c.session) != nil ==> old(c.session).loggedOut && c.cbLogout == old(c.cbLogout) + 1
 //@   ensures @C08 idempotent: old(c.session) == nil ==> c.cbLogout == old(c.cbLogout)
@@ -721,7 +723,41 @@ package smtp
 
 //@ contract (*Conn).handleBdat$1()
 //@   prop C03 C04 C08 C13
-//@   requires connWF(c) && c.session != nil && sessOK(c) && sessCur(c.session) && c.fromReceived && len(c.recipients) >= 1 && r != nil && (c.server.LMTP ==> c.bdatStatus != nil) && c.server.ErrorLog != nil
-//@   requires @C04 result-channel-of-this-transfer-is-new-and-empty: c.dataResult != nil && len(c.dataResult) == 0
+//@   requires connWF(c) && c.session != nil && sessOK(c) && sessCur(c.session) && c.fromReceived && len(c.recipients) >= 1 && r != nil && (c.server.LMTP ==> status != nil) && c.server.ErrorLog != nil
+//@   requires @C04 result-channel-of-this-transfer-is-new-and-empty: dataResult != nil && len(dataResult) == 0 && dataResult == c.dataResult
+//@   requires @C13 collector-and-recipients-of-this-transfer: status == c.bdatStatus && recipients == c.recipients
 //@   modifies c.cbData, *chan
 //@   ensures @C03 one-data-callback-per-transfer: c.cbData == old(c.cbData) + 1
+
+// =======================================================================================
+// Server life cycle (C20, sequential part)
+// =======================================================================================
+
+//@ contract (*Server).Serve(s, l) (err)
+//@   prop C20
+//@   requires s != nil && l != nil && s.ErrorLog != nil && s.done != nil
+//@   modifies s.listeners, *elems net.Listener, *chan
+//@   ensures @C20 temporary-accept-errors-never-end-serving: err != nil ==> !(istype(err, "net.Error") && isTemp(err))
+//@   loop 1:
+//@     invariant @C20 back-off-stays-bounded: 0 <= tempDelay && tempDelay <= 1000000000
+
+//@ contract (*Server).Close(s) (err)
+//@   prop C20
+//@   requires s != nil && s.done != nil
+//@   requires forall x: *Conn :: has(s.conns, x) ==> x != nil && x.conn != nil && sessOK(x)
+//@   requires forall i :: 0 <= i && i < len(s.listeners) ==> s.listeners[i] != nil
+//@   modifies *chan, *.Conn.bdatPipe, *.Conn.session, *.Conn.closed, *.Conn.cbLogout, *.io.PipeWriter.state, *.Session.loggedOut
+//@   ensures @C20 closing-again-reports-already-closed: old(chclosed(s.done)) ==> err == ErrServerClosed && chclosed(s.done)
+//@   ensures @C20 first-close-marks-the-server-closed: !old(chclosed(s.done)) && old(len(s.done)) == 0 ==> chclosed(s.done)
+//@   ensures @C20 first-close-closes-every-registered-connection: !old(chclosed(s.done)) && old(len(s.done)) == 0 ==> (forall x: *Conn :: has(s.conns, x) ==> x.closed)
+//@   loop 2:
+//@     invariant forall x: *Conn :: has(s.conns, x) && !itvisited(x) ==> x != nil && x.conn != nil && sessOK(x)
+//@     invariant @C20 every-registered-connection-is-closed: forall x: *Conn :: itvisited(x) ==> x.closed
+
+//@ contract (*Server).Shutdown(s, ctx) (err)
+//@   prop C20
+//@   requires s != nil && s.done != nil && ctx != nil
+//@   requires forall i :: 0 <= i && i < len(s.listeners) ==> s.listeners[i] != nil
+//@   modifies *chan
+//@   ensures @C20 shutting-down-again-reports-already-closed: old(chclosed(s.done)) ==> err == ErrServerClosed && chclosed(s.done)
+//@   ensures @C20 first-shutdown-marks-the-server-closed: !old(chclosed(s.done)) && old(len(s.done)) == 0 ==> chclosed(s.done)
